@@ -29,7 +29,8 @@ EXTENDS Integers, Sequences, FiniteSets, TLC, Json
 CONSTANTS MaxHist,      \* number of history actions
           CfgIds,       \* configurations explored (indices into CfgTable)
           DeepCfgIds,   \* configurations explored at the last level (length = MaxHist)
-          StmtAct       \* TRUE: Stmtwise(p) is also a history action
+          StmtAct,      \* TRUE: Stmtwise(p) is also a history action
+          LibIds        \* statements of the library used as actions (indices into Library)
 
 VARIABLES cfg, hist, st, tree, userEnv
 vars == <<cfg, hist, st, tree, userEnv>>
@@ -79,6 +80,7 @@ InitSt(c) == [
   tx     |-> "", te |-> "",     \* EXIT / ERR trap: "" or the word its body echoes
   cwd    |-> "D0", old |-> "U", ds |-> <<"D0">>,
   params |-> CfgParams(c),
+  ifs    |-> " ",               \* first character of IFS (joins "$*")
   gk     |-> 0,                 \* options already delivered by `getopts abc o -ab -c`
   jobs   |-> 0,
   sink   |-> "buf",             \* where stdout goes: the caller's buffer or the exec'd file
@@ -122,8 +124,11 @@ Library == <<
   "true &", "wait",
   "getopts abc o -ab -c",
   "set -- x y", "set -- z",
-  "echo M1" >>
-LibSet == { Library[i] : i \in 1..Len(Library) }
+  "echo M1", "IFS=:" >>
+AllLibIds  == 1..Len(Library)
+\* one statement per component of the runner state (used for the histories of length 3)
+DeepLibIds == {1, 4, 6, 9, 10, 13, 14, 16, 17, 19, 21, 23, 25, 27, 28, 30, 32, 33, 34, 36, 38, 39, 41, 42}
+LibSet == { Library[i] : i \in LibIds }
 
 (* ---- the probe: prints every component of the state; every line succeeds or sits in an
         && / || list, so it is immune to errexit and the ERR trap ---- *)
@@ -212,10 +217,11 @@ Effect(s, a) ==
     [] a = "set -- x y"   -> Ok([s EXCEPT !.params = <<"x", "y">>])
     [] a = "set -- z"     -> Ok([s EXCEPT !.params = <<"z">>])
     [] a = "echo M1"      -> Ok(Emit(s, Lit("M1")))
+    [] a = "IFS=:"        -> Ok([s EXCEPT !.ifs = ":"])
     \* ---- probe lines (always status 0)
     [] a = "P01"    -> Ok(Emit(s, Item("q", <<s.last>>)))
-    [] a = "P02"    -> Ok(Emit(s, Item("vals", <<s.vars["v"].val, s.vars["w"].val, s.vars["E"].val>>
-                                          \o (IF s.arr.set THEN s.arr.list ELSE <<"U">>))))
+    [] a = "P02"    -> Ok(Emit(s, Item("vals", <<s.vars["v"].val, s.vars["w"].val, s.vars["E"].val, s.ifs>>
+                                          \o (IF s.arr.set THEN s.arr.list ELSE <<"U">>))))   \* "${a[*]}" joins with IFS
     [] a = "P03"    -> Ok(Emit(s, VarItem(s, "v")))
     [] a = "P04"    -> Ok(Emit(s, VarItem(s, "w")))
     [] a = "P05"    -> Ok(Emit(s, VarItem(s, "E")))
@@ -230,7 +236,7 @@ Effect(s, a) ==
     [] a = "P14"  -> Ok(Emit(s, Item("pwd", <<s.cwd>>)))
     [] a = "P15"  -> Ok(Emit(s, Item("pwd2", <<s.cwd, s.old>>)))
     [] a = "P16"  -> Ok(Emit(s, Item("dirs", Rev(s.ds))))
-    [] a = "P17"  -> Ok(Emit(s, Item("params", s.params)))
+    [] a = "P17"  -> Ok(Emit(s, Item("params", <<s.ifs>> \o s.params)))
     [] a = "P18"  -> Ok(Emit(s, Item("optind", <<OptindOf(s.gk)>>)))
     [] a = "P19"  -> IF s.gk < 3
                         THEN Ok(Emit([s EXCEPT !.gk = @ + 1], Item("getopts", <<GetoptsOpt[s.gk + 1], OptindOf(s.gk + 1), "more">>)))
